@@ -1317,9 +1317,9 @@ def std_points(E, prm, binary):
     if not binary:
         pts.append(E.mul(3, G))
     pts += E.lift_x(0)
+    pts.append(R)
     if h > 1:
         S = E.mul(q, R)
-        pts.append(R)
         while S is not None and S not in pts:
             pts.append(S); S = E.dbl(S)
         if binary:
@@ -1456,3 +1456,218 @@ def std_cell(case):
                     addv(swu_check(c, s)); calls += 1
         parts['ison_swu'] = parts.get('ison_swu', 0) + calls - n0
     return {'calls': calls, 'viol': viol, 'parts': parts, 'npts': len(mulc.get('pts', (0, []))[1])}
+
+# ------------------------------------------------------------------------------------------------ driver
+CELLS = {'group': group_cell, 'scalar': scalar_cell, 'addmul': addmul_cell, 'isonsweep': ison_sweep_cell, 'ison': ison_cell,
+         'swu': swu_cell, 'std': std_cell}
+
+def run_cell(case):
+    if 'tjob' in case and case['cid'] not in TABLES:
+        TABLES[case['cid']] = build_table(case['tjob'])
+    return CELLS[case['kind']](case)
+
+def cell_name(case):
+    k = case['kind']
+    if k == 'group':
+        return 'group:%s:%s:alias=%s' % (case['cid'], case['op'], ALIAS_NAME[case['alias']])
+    if k == 'scalar':
+        return '%s:%s:m=%d:%s' % ('ecMulA' if case['mode'] == 0 else 'ecHasOrderA', case['cid'], case['m'], case['layout'])
+    if k == 'addmul':
+        return 'ecAddMulA:%s:%s' % (case['cid'], case['sub'])
+    if k == 'std':
+        return 'std:%s:%s' % (case['fam'], case['name'])
+    return '%s:%s' % (k, case.get('cid') or spec_str(case['spec']))
+
+def jcase(case):
+    """JSON-able copy of a case"""
+    def conv(v):
+        if isinstance(v, tuple):
+            return [conv(x) for x in v]
+        if isinstance(v, list):
+            return [conv(x) for x in v]
+        if isinstance(v, dict):
+            return {k: conv(x) for k, x in v.items()}
+        return v
+    return conv(case)
+
+def ucase(case):
+    """case read back from JSON: restore the hashable specs"""
+    case = dict(case)
+    if 'spec' in case:
+        case['spec'] = tspec(case['spec'])
+    if 'tjob' in case:
+        kind, spec, extra = case['tjob']
+        extra = tuple(extra) if extra is not None else None
+        case['tjob'] = (kind, tspec(spec), extra)
+    if 'lpairs' in case:
+        case['lpairs'] = [tuple(x) for x in case['lpairs']]
+    return case
+
+def cost(case):
+    """rough relative cost, used only to spread the heavy cells over the workers"""
+    k = case['kind']
+    n = case.get('nU', 50)
+    bits = case.get('bits', 64)
+    f = 1 + bits / 64.0
+    if k == 'std':
+        return 3e7 * (bits / 160.0) ** 3 if case['fam'] == 'dstu' else 2e6 * f
+    if k == 'group':
+        sh = OPS[case['op']][1]
+        return len(case['lpairs']) * (n * n if sh in ('pp', 'pa', 'aa') and case['alias'] != 3 else n) * f
+    if k == 'scalar':
+        return (n if case['pts'] == 'all' else 15) * 2 * n * case['m'] * 30 * f
+    if k == 'addmul':
+        return {'k1': n * n * 60, 'k1m': 1e5, 'k2': 2e6, 'k2m': 4e6, 'k3': 1.5e7}[case['sub']] * f
+    return n * n
+
+def all_cases(tier, tables_out):
+    """builds the closed point sets (reference, in parallel) and returns the list of cells"""
+    tjobs = []
+    for p, label, a, b in small_curves(tier):
+        spec = ('p', p, a, b)
+        tjobs.append(('small:p=%d:A=%d:B=%d' % (p, a, b), spec, ('small', spec, None), CFGS, label))
+    for cid, spec, job in mw_jobs(tier):
+        tjobs.append((cid, spec, job, CFGS, 'subgroup of y^2=x^3%+dx over a multi-word prime' % (1 if spec[2] == 1 else -3)))
+    for cid, spec, job, cfgs in ec2_jobs(tier):
+        tjobs.append((cid, spec, job, cfgs, 'complete subfield curve'))
+    res = vf.pmap(build_table, [t[2] for t in tjobs], case_timeout=900)
+    cases = []
+    info = []
+    for (cid, spec, job, cfgs, label), tab in zip(tjobs, res):
+        if 'U' not in tab:
+            raise RuntimeError('reference table for %s failed: %s' % (cid, str(tab)[:2000]))
+        TABLES[cid] = tab
+        nU = tab['N']
+        bits = spec[1].bit_length() if spec[0] == 'p' else spec[1][0]
+        info.append({'curve': cid, 'class': label, 'points': nU, 'point_orders': sorted(set(tab['ord']))[:16]})
+        tiny = nU <= 40
+        for cfg in cfgs:
+            W = 8 if cfg == 'rel' else 4
+            new = []
+            full = (bits <= 64 and nU <= 300) or nU <= 100
+            gc = group_cases(cfg, cid, spec, nU, tier)
+            for g in gc:
+                if len(g['lpairs']) == 16 and not full:
+                    g['lpairs'] = DIAG_LP
+                if nU > 1500:
+                    g['lpairs'] = g['lpairs'][:2] if len(g['lpairs']) > 2 else g['lpairs']
+            new += gc
+            if spec[0] == 'p' and bits <= 64 and not cid.startswith('mw:'):
+                new += scalar_cases(cfg, cid, spec, nU, tier, W)
+                light = tier == 'quick' and tiny and (a_index(cid) % 3 != 0)
+                new += [x for x in addmul_cases(cfg, cid, spec, nU, tier) if not (light and x['sub'] in ('k2m', 'k3'))]
+                new.append({'kind': 'isonsweep', 'cfg': cfg, 'cid': cid, 'spec': spec})
+            else:
+                # multi-word fields: scalars on representatives only, two lengths per window width
+                ml = m_list(W, 'quick')
+                for m in (ml if tier == 'thorough' else ml[::2] + ml[-1:]):
+                    for layout in ('pad', 'top'):
+                        new.append({'kind': 'scalar', 'cfg': cfg, 'cid': cid, 'spec': spec, 'm': m, 'layout': layout, 'mode': 0, 'pts': 'reps' if nU > 40 else 'all'})
+                    new.append({'kind': 'scalar', 'cfg': cfg, 'cid': cid, 'spec': spec, 'm': m, 'layout': 'mid', 'mode': 1, 'pts': 'reps' if nU > 40 else 'all'})
+                if nU <= 300:
+                    new += [x for x in addmul_cases(cfg, cid, spec, nU, tier) if x['sub'] in (('k1m', 'k2', 'k3') if tier == 'thorough' else ('k1m', 'k2'))]
+                new.append({'kind': 'ison', 'cfg': cfg, 'cid': cid, 'spec': spec})
+            for x in new:
+                x['tjob'] = job; x['nU'] = nU; x['bits'] = bits
+            cases += new
+    for spec in swu_curves(tier):
+        for cfg in CFGS:
+            cases.append({'kind': 'swu', 'cfg': cfg, 'spec': spec, 's': 'all', 'nU': spec[1], 'bits': 10})
+    import g12s as RG, dstu as RD
+    for fam, name in std_list(tier):
+        r = ref_params(fam, name)
+        bits = r['poly'][0] if fam == 'dstu' else r['p'].bit_length()
+        cases.append({'kind': 'std', 'fam': fam, 'name': name, 'tier': tier, 'cfgs': list(CFGS), 'bits': bits})
+    tables_out.extend(info)
+    return cases
+
+def a_index(cid):
+    return int(hashlib.sha256(cid.encode()).hexdigest(), 16) % 97
+
+RULE = ('complete small curves over GF(p), p in {11,13,251,(1021)} chosen by group class (prime / odd / one or three points of order 2, '
+        'A = -3 / A = 0 / B = 0 / generic): EVERY ordered pair (P,Q) incl. O through add, sub, adda, suba (+ neg, dbl, tpl, froma, toa, dbla) '
+        'with Z scales {1,2,p-1,filler}^2 and four representations of O, aliasing c=a, c=b, a=b; ecpAddAA/SubAA/NegA; ecpIsOnA on all raw '
+        '(x,y) in [0,p+1]^2; ecMulA for EVERY k in 0..2ord+2 x 4 word layouts (padded, k+J*ord with tiny top word, just below B^m, filler) x '
+        'every length class of the window selection; ecHasOrderA; ecAddMulA with 1..3 terms; closed subgroups (order 72 cyclic / Z2xZ36, 210) '
+        'of y^2=x^3+x and y^2=x^3-3x over 2..8-word primes (plain, Montgomery, Crandall rings); complete curves over GF(2^5), GF(2^7), '
+        'GF(2^11) embedded in GF(2^m), m in {70,77,105,110,(35,44 in w32)}; ecpSWU on every admissible field element of small curves; '
+        'boundary points x boundary scalars on bign128/192/256, bign96, GOST and DSTU standard curves; configurations rel and w32; '
+        'every scratch stack is exactly xxx_deep octets followed by a guard zone')
+
+def run(tier):
+    chk = vf.Check(PROP, tier, deadline_s=900 if tier == 'quick' else 3600)
+    info = []
+    cases = all_cases(tier, info)
+    order = sorted(range(len(cases)), key=lambda i: -cost(cases[i]))
+    cases = [cases[i] for i in order]
+    res = vf.pmap(run_cell, cases, case_timeout=1500)
+    kinds = {}
+    widths = set()
+    for case, r in zip(cases, res):
+        name = cell_name(case)
+        kind = case['kind'] if case['kind'] != 'scalar' else ('ecMulA' if case['mode'] == 0 else 'ecHasOrderA')
+        if 'calls' not in r:
+            txt = (r.get('stderr') or r.get('harness_error') or '')[-700:]
+            what = r.get('crash') or 'harness error'
+            fam = 'ec2' if case.get('spec', ('p',))[0] == '2' else 'ecp'
+            key = 'crash:%s:%s:%s' % (fam, kind, case.get('op') or case.get('sub') or case.get('fam') or '')
+            chk.violation(key, {'cfg': case.get('cfg', 'rel'), 'kind': 'cell', 'case': jcase(case)},
+                          'cell %s (cfg %s): the process executing it died / failed: %s\n%s' % (name, case.get('cfg'), what, txt))
+            continue
+        k = kinds.setdefault(kind, [0, 0])
+        k[0] += 1; k[1] += r['calls']
+        if 'width' in r:
+            widths.add((case['cfg'], r['width']))
+        chk.outcome('%s ok' % kind if not r['viol'] else '%s VIOLATION' % kind)
+        if r.get('skipped'):
+            chk.outcome('tpl absent (ec2 table)')
+        for key, rec, msg in r['viol']:
+            chk.violation(key, rec, msg)
+    for kind, (ncell, ncalls) in sorted(kinds.items()):
+        chk.part(kind, states=ncell, transitions=ncalls, traces_validated_against_impl=ncalls, evaluations=ncalls)
+    chk.part('closed_point_sets', curves=len(info), distinct_nontrivial=len(info))
+    for x in info[:3] + info[len(info) // 2:len(info) // 2 + 2] + info[-3:]:
+        chk.sample(x)
+    chk.sample({'window_widths_reached (cfg, w)': sorted(widths)})
+    chk.sample({'cells': len(cases), 'heaviest': [cell_name(c) for c in cases[:4]]})
+    chk.assumptions += [
+        'gf2Create refuses every polynomial with m - k < B_PER_W, so GF(2^5), GF(2^7), GF(2^11) cannot be built; the complete curves over these fields '
+        'are exhausted as subfield curves inside GF(2^m), m = 70, 77, 105, 110 (35, 44 in w32): E(GF(2^d)) is closed under the group law and the '
+        'Lopez-Dahab code runs on the real multi-word field with Z scales from the big field; the carried group table is validated against ref/ec2.py over the big field',
+        'the fully aliased call a = b = c is excluded (ec.h is ambiguous about it); a = b for adda/suba is run only with Z = 1 (same pointer read as affine point)',
+        'the affine functions ecpAddAA/SubAA/NegA, ec2AddAA/SubAA/NegA are called with distinct buffers only (the headers document no aliasing; ec2AddAA asserts it)',
+        'ecpSWU: for a non-residue B the header excepts s in {0, p-1}; s = 1 maps to the same t = -1 and is excepted with them (observation, not a violation)',
+        'values of multi-word operands are boundary classes + filler, shapes (pairs, aliasing, scalar lengths, layouts) are complete',
+        'ecMulA with m = 0 words is not generated; scalars of ecHasOrderA are > 0 (precondition)',
+        'the C helper drv/vh_c06.c only calls the library and stores raw outputs; expected values come from ref/ecp.py, ref/ec2.py and are compared here']
+    return chk.finish('C06', RULE)
+
+def replay(rec):
+    k = rec['kind']
+    if k == 'pair':
+        return check_single_pair(rec)
+    if k == 'mul':
+        return check_single_mul(rec)
+    if k == 'addmul':
+        return check_single_addmul(rec)
+    if k == 'ison':
+        return check_single_ison(rec)
+    if k == 'swu':
+        c = get_ctx(rec['cfg'], tspec(rec['spec']))
+        v = swu_check(c, int(rec['s'], 16))
+        return v[2] if v else None
+    if k == 'params':
+        L = common.lib(rec['cfg'])
+        if lib_params(L, rec['fam'], rec['name']) != ref_params(rec['fam'], rec['name']):
+            return '%sParamsStd(%s) differs from the standard table' % (rec['fam'], rec['name'])
+        return None
+    if k == 'cell':
+        # a whole cell (crashes): executed in a forked child so that a crash is an observation
+        case = ucase(rec['case'])
+        r = vf.pmap(run_cell, [case], nproc=1, case_timeout=1500)[0]
+        if 'calls' not in r:
+            return 'cell %s: %s\n%s' % (cell_name(case), r.get('crash') or 'harness error', (r.get('stderr') or r.get('harness_error') or '')[-700:])
+        if r['viol']:
+            return r['viol'][0][2]
+        return None
+    return None
